@@ -94,6 +94,17 @@ def gen_description(rng, force=None, max_images=None, type_cycle=None):
     if force == "many-per-cell":
         n = rng.randint(8, 16)
         cells = cells[:2]
+    near = []
+    if force == "near-equal-paths" or rng.random() < 0.08:
+        # paths of ONE cell that differ only in zero padding / case / a separator: every sort key that is coarser than the
+        # path itself ties on them
+        base = "%s/%s" % (rng.choice(["Server", "iso", "images"]), text.word(rng, 2, 6))
+        k = rng.choice([1, 2, 7, 10])
+        near = rng.sample(["%s-disc%d.iso" % (base, k), "%s-disc0%d.iso" % (base, k), "%s-disc00%d.iso" % (base, k),
+                           "%s-Disc%d.iso" % (base, k), "%s-disc%d.ISO" % (base, k), "%s_disc%d.iso" % (base, k),
+                           "%s-disc%d.iso " % (base, k), "%s-disc%d..iso" % (base, k)], rng.randint(2, 5))
+        n = max(n, len(near))
+    near_cell = rng.choice(cells) if cells else None
     for i in range(n):
         itype = iformat = None
         if type_cycle is not None:
@@ -114,12 +125,37 @@ def gen_description(rng, force=None, max_images=None, type_cycle=None):
             else:
                 break
         ident[model_identity(a)] = dict(a["checksums"])
+        if i < len(near):
+            a["path"] = near[i]
+        same_path_src = None
+        if i >= len(near) and images and (rng.random() < 0.12 or (force == "same-path-other-cell" and i == 1)):
+            # a DIFFERENT image object (other attributes) carrying the SAME path, filed in other cells -
+            # what loading a unified ISO listed under several variants produces
+            same_path_src = rng.choice(images)
+            a["path"] = same_path_src["attrs"]["path"]
+            if rng.random() < 0.5:
+                a["unified"] = True
+                a["additional_variants"] = rng.sample(VARIANT_POOL, rng.randint(1, 2))
+                a["checksums"] = dict(same_path_src["attrs"]["checksums"])
+            for _ in range(20):
+                key = model_identity(a)
+                if key in ident and ident[key] != a["checksums"]:
+                    a["subvariant"] = a["subvariant"] + text.chars(rng, text.ALNUM, 1, 3)
+                else:
+                    break
+            ident[model_identity(a)] = dict(a["checksums"])
         k = 1
         if force == "shared-object" and i == 0:
             k = min(len(cells), rng.randint(2, 4))
         elif rng.random() < 0.15:
             k = min(len(cells), rng.randint(2, 3))
         mycells = rng.sample(cells, k)
+        if i < len(near):
+            mycells = [near_cell]
+        if same_path_src is not None:
+            free = [c for c in cells if a["path"] not in used_paths.get(c, ())]
+            if free:
+                mycells = rng.sample(free, min(len(free), k))
         # distinct paths per cell
         for _ in range(20):
             if any(a["path"] in used_paths.get(c, ()) for c in mycells):
@@ -165,6 +201,18 @@ def classes_of(D):
         out.add("several-variants")
     if len(set(c[1] for c in cells)) > 1:
         out.add("several-arches")
+    import re as _re
+    norm = {}
+    for im in D["images"]:
+        for c in im["cells"]:
+            norm.setdefault((tuple(c), _re.sub(r"0*(\d+)", r"\1", im["attrs"]["path"]).lower().replace("_", "-").strip()), set()).add(im["attrs"]["path"])
+    if any(len(v) > 1 for v in norm.values()):
+        out.add("near-equal-paths")
+    bypath = {}
+    for im in D["images"]:
+        bypath.setdefault(im["attrs"]["path"], []).append(im)
+    if any(len(v) > 1 for v in bypath.values()):
+        out.add("same-path-other-cell")
     ids = {}
     for im in D["images"]:
         k = model_identity(im["attrs"])
